@@ -11,6 +11,7 @@ import (
 	"strings"
 
 	"github.com/biscuit-auth/biscuit-go/v2"
+	"github.com/biscuit-auth/biscuit-go/v2/datalog"
 )
 
 func init() { verbs["C08"] = runC08 }
@@ -69,7 +70,7 @@ func observe(t *biscuit.Biscuit, panel [][]AuthOp, g *scenGen) string {
 }
 
 func runC08(c *Ctx) {
-	c.Rule = "(builder reuse) the authority Builder used again after Build(): the built token must not change, and a second Build() must carry everything put into the builder, as decoded by the Lean wire model; random histories (20-40 operations quick, up to 150 thorough) over a growing family: build, create-block (several builders from one parent before any is built), interleaved add-fact / add-rule / add-check on live builders with fresh symbols, build-block, further adds to a builder after its Build(), append (to the parent or to a sibling), seal, serialize + unmarshal, get-block-id, authorizer-for + authorize, print; symbol tables steered across capacity boundaries (2-17 symbols). After every operation every live token is observed and must be unchanged; at the end the Lean wire model decodes every live token and must find exactly what its own callers put in. Non-trivial = a history in which at least two builders were created from the same parent before one of them was built; distinct = distinct final token byte strings."
+	c.Rule = "(builder reuse) the authority Builder used again after Build(): the built token must not change, and a second Build() must carry everything put into the builder, as decoded by the Lean wire model; random histories (20-40 operations quick, up to 150 thorough) over a growing family: build (through Builder, or through NewBlockBuilder + New over one table object the issuer keeps for all tokens it mints), create-block (several builders from one parent before any is built), interleaved add-fact / add-rule / add-check on live builders with fresh symbols, build-block, further adds to a builder after its Build(), append (to the parent or to a sibling), seal, serialize + unmarshal, get-block-id, authorizer-for + authorize, print; symbol tables steered across capacity boundaries (2-17 symbols). After every operation every live token is observed and must be unchanged; at the end the Lean wire model decodes every live token and must find exactly what its own callers put in. Non-trivial = a history in which at least two builders were created from the same parent before one of them was built; distinct = distinct final token byte strings."
 	r := NewRng(c.Seed)
 	n := 150
 	steps := 30
@@ -88,6 +89,7 @@ func runC08(c *Ctx) {
 		var blocks []*famBlock
 		var spent []biscuit.BlockBuilder // builders whose Build() was already called
 		rd := &detRand{r.Fork()}
+		callerTable := &datalog.SymbolTable{}
 		sym := 0
 		freshFact := func() Pred {
 			sym++
@@ -111,7 +113,30 @@ func runC08(c *Ctx) {
 			for i, d := 0, Pick(r, []int{0, 0, 1, 2, 3, 3, 5, 6, 7}); i < d; i++ {
 				chain = append(chain, Block{Facts: []Pred{freshFact()}})
 			}
-			tok, err := buildTokenSpec(TokenSpec{Blocks: chain}, r.Fork())
+			var tok *biscuit.Biscuit
+			var err error
+			if r.Chance(1, 3) {
+				// minted with the exported constructor New from an authority block prepared with
+				// NewBlockBuilder, all over ONE table object the issuer keeps (empty, so that the
+				// tokens can be read back without it): tokens minted from it are siblings too
+				_, priv := rootKeys()
+				bb := biscuit.NewBlockBuilder(callerTable.Clone())
+				if err = fillBlockBuilder(bb, chain[0]); err == nil {
+					tok, err = biscuit.New(rd, priv, callerTable, bb.Build())
+				}
+				for _, blk := range chain[1:] {
+					if err != nil {
+						break
+					}
+					nb := tok.CreateBlock()
+					if err = fillBlockBuilder(nb, blk); err == nil {
+						tok, err = tok.Append(rd, nb.Build())
+					}
+				}
+				c.Count("minted-with-New-over-the-issuer's-table")
+			} else {
+				tok, err = buildTokenSpec(TokenSpec{Blocks: chain}, r.Fork())
+			}
 			if err == nil {
 				toks = append(toks, &famTok{tok: tok, blocks: chain, name: fmt.Sprintf("t%d", len(toks))})
 			}
@@ -270,7 +295,6 @@ func runC08(c *Ctx) {
 		}
 	}
 }
-
 
 // builderReuse: the authority Builder used again after Build(). The token already built must
 // stay what it was (in memory and serialized), and a second Build() must give a token that
